@@ -129,17 +129,20 @@ func evalTables(c *Ctx, gc GCase, prop string) string {
 		for _, lk := range lookups {
 			c.Eval(1)
 			r := yg.Drive(l, lk.f, in, 20000)
-			if r.Bad == "steplimit" {
-				if rf.conflictFree {
-					msg = fmt.Sprintf("%s: the parse of %s does not end within 20000 steps although the grammar is conflict-free", lk.name, inputNames(s, w))
-					return false
-				}
-				c.Inconclusive("reduction loop in a conflicted grammar")
-				continue
-			}
 			if r.Bad != "" {
-				msg = fmt.Sprintf("%s: driving the table on %s fails: %s", lk.name, inputNames(s, w), r.Bad)
-				return false
+				// the table cannot be driven to a verdict on this input: no acceptance,
+				// so nothing for C01; for C02 it matters only if the input is a sentence
+				if prop == "C02" {
+					if !memKnown {
+						mem, memKnown = g.Member(w), true
+					}
+					if mem {
+						msg = fmt.Sprintf("%s does not accept the sentence %s of an LALR(1) grammar (class %s): %s", lk.name, inputNames(s, w), rf.class, r.Bad)
+						return false
+					}
+				}
+				c.Inconclusive("table run ended without a verdict: " + firstWord(r.Bad) + " (C06/C09's business)")
+				continue
 			}
 			if r.Accepted {
 				if err := g.CheckDerivation(r.Reds, append([]int{}, w...)); err != nil {
@@ -172,4 +175,13 @@ func evalTables(c *Ctx, gc GCase, prop string) string {
 		c.Sample(map[string]interface{}{"family": gc.Family, "grammar": gc.Text, "class": rf.class, "strings_up_to_length": k, "packed": l.NeedPacked})
 	}
 	return ""
+}
+
+func firstWord(s string) string {
+	for i := 0; i < len(s); i++ {
+		if s[i] == ' ' {
+			return s[:i]
+		}
+	}
+	return s
 }
